@@ -928,8 +928,11 @@ Section WithFiles.
                                    (t_col bl + ge_col g) (t_com bl)))
               end in
             let toks' := fst (lex_full octets (match ge with Some _ => true | None => false end)) in
+            (* the TTL state is handed down as for $INCLUDE (fix a7abe93 of the library; before, the sub
+               parser always started from the internal default); with no TTL known the default stays *)
             let evs := gen (mkCfg (c_file cf) (c_inc cf) false true (c_depth cf)) (p_origin p')
-                           (Some (mkTtl defaultTtl false)) toks' rerr' in
+                           (match p_defttl p' with Some d => Some d | None => Some (mkTtl defaultTtl false) end)
+                           toks' rerr' in
             if failed evs then evs else evs ++ k p' rest'
           end
       end
